@@ -488,6 +488,34 @@ func c09Sections(g *Gen, cc *c09Cases, n int, tier string, wide bool) []ap.Item 
 			}
 		}
 	}
+	// the pointer forms of the nil IRI (a nil *IRI, a pointer to the empty IRI): no rendering in the model, judged natively -
+	// nil-like among the nil-likes, unequal to anything non-nil, in both orders, never a panic
+	if !wide {
+		var nilp *ap.IRI
+		empty := ap.IRI("")
+		for _, a := range []ap.Item{nilp, &empty} {
+			for _, b := range append(append([]ap.Item{}, nils...), nilp) {
+				for _, pr := range [][2]ap.Item{{a, b}, {b, a}} {
+					r, p, msg := c09Eq(pr[0], pr[1])
+					rep.Evaluations++
+					rep.Count("nil-iri-pointer")
+					if p || !r {
+						rep.Violate(Violation{Op: "ItemsEqual(nil-like, nil-like) with a pointer form of the nil IRI", Input: fmt.Sprintf("%T(%v) , %T(%v)", pr[0], pr[0] == nil, pr[1], pr[1] == nil), Expected: "true", Observed: show(r, p, msg)})
+					}
+				}
+			}
+			for _, x := range []ap.Item{ap.IRI("https://example.com/a"), &ap.Object{ID: "https://example.com/o", Type: ap.NoteType}, ap.ItemCollection{ap.IRI("https://example.com/a")}} {
+				for _, pr := range [][2]ap.Item{{a, x}, {x, a}} {
+					r, p, msg := c09Eq(pr[0], pr[1])
+					rep.Evaluations++
+					rep.Count("nil-iri-pointer")
+					if p || r {
+						rep.Violate(Violation{Op: "ItemsEqual(nil-like, non-nil) with a pointer form of the nil IRI", Input: fmt.Sprintf("%T , %T", pr[0], pr[1]), Expected: "false", Observed: show(r, p, msg)})
+					}
+				}
+			}
+		}
+	}
 	nNil := n / 4
 	if wide {
 		nNil = n / 8
